@@ -126,10 +126,28 @@ func schedule(r *rand.Rand, p *vm.Plan, mode string, maxDurNs int64, horizon int
 	}
 }
 
+// entropy is a healthy source with fresh bytes; a quarter of the sources deliver
+// them in short reads (legal io.Reader behaviour: 1 byte at a time, uneven
+// chunks, or with interleaved (0,nil) reads).
 func entropy(r *rand.Rand) *vm.Entropy {
 	b := make([]byte, 32)
 	r.Read(b)
-	return &vm.Entropy{Bytes: hex.EncodeToString(b)}
+	e := &vm.Entropy{Bytes: hex.EncodeToString(b)}
+	switch r.Intn(12) {
+	case 0:
+		for i := 0; i < 32; i++ {
+			e.Script = append(e.Script, vm.ReadStep{Kind: "short", N: 1})
+		}
+	case 1:
+		for left := 32; left > 0; {
+			n := 1 + r.Intn(left)
+			e.Script = append(e.Script, vm.ReadStep{Kind: "short", N: n})
+			left -= n
+		}
+	case 2:
+		e.Script = []vm.ReadStep{{Kind: "zero"}, {Kind: "short", N: 1 + r.Intn(31)}, {Kind: "zero"}}
+	}
+	return e
 }
 
 func seedHex(r *rand.Rand) string {
